@@ -3,7 +3,7 @@
   `pybufrkit/mdquery.py MetadataExprParser.parse` (`Gen/PyMdquery.lean`, regenerated on every check)
   against the model's `MdQuery.parse` (`Lang/MdQuery.lean`).
 
-  Pieces: `Py.strip` = `strip`, `Py.splitChar '.'` = `splitDot`, and `Py.Small.intOfStr` (CPython's `int(str)`:
+  Pieces: `Py.strip` = `strip`, `Py.splitChar '.'` = `splitDot`, and `Py.intOfStr` (CPython's `int(str)`:
   every Unicode decimal digit, limit of 4300 digits) = `parseInt` on strings whose decimal digits are the ASCII
   ones and that are not longer than 4300 characters.
 -/
@@ -14,12 +14,12 @@ open Bufr.MdQuery
 
 /-- every character that Python's `int` reads as a decimal digit is an ASCII digit -/
 def AsciiDigitsOnly (s : List Char) : Prop :=
-  ∀ c ∈ s, Py.Small.decimalDigitValue c = none ∨ isDigit c = true
+  ∀ c ∈ s, Py.decimalDigit? c = none ∨ isDigit c = true
 
 instance (s : List Char) : Decidable (AsciiDigitsOnly s) := by unfold AsciiDigitsOnly; exact inferInstance
 
 theorem isSpaceChar_eq : Py.isSpaceChar = isSpace := rfl
-theorem isIntSpace_eq : Py.Small.isIntSpace = isIntSpace := rfl
+theorem isIntSpace_eq : Py.intIsSpace = isIntSpace := rfl
 
 theorem strip_eq (s : List Char) : Py.strip s = strip s := rfl
 
@@ -29,105 +29,197 @@ theorem splitChar_eq (s : List Char) : Py.splitChar '.' s = splitDot s := by
   | cons c cs ih => simp only [Py.splitChar, splitDot, ih]; rfl
 
 /-- an ASCII digit is the decimal digit of its code minus 48 -/
-theorem decimalDigitValue_of_isDigit (c : Char) (h : isDigit c = true) :
-    Py.Small.decimalDigitValue c = some (c.toNat - 48) := by
+theorem decimalDigit_of_isDigit (c : Char) (h : isDigit c = true) :
+    Py.decimalDigit? c = some (c.toNat - 48) := by
   have h' : 48 ≤ c.toNat ∧ c.toNat ≤ 57 := by
     simp only [isDigit, Bool.and_eq_true, decide_eq_true_eq] at h
     have h1 : '0'.toNat ≤ c.toNat := h.1
     have h2 : c.toNat ≤ '9'.toNat := h.2
     exact ⟨h1, h2⟩
-  unfold Py.Small.decimalDigitValue
-  rw [show Py.Small.decimalZeros = 0x30 :: Py.Small.decimalZeros.tail from rfl]
-  have : (decide (0x30 ≤ c.toNat) && decide (c.toNat < 0x30 + 10)) = true := by
+  unfold Py.decimalDigit?
+  have : (decide (48 ≤ c.toNat) && decide (c.toNat ≤ 57)) = true := by
     simp only [Bool.and_eq_true, decide_eq_true_eq]; omega
-  simp only [List.find?_cons, this, Option.map_some]
+  simp only [this, if_true]
 
-theorem decimalDigitValue_cases (c : Char) (h : Py.Small.decimalDigitValue c = none ∨ isDigit c = true) :
-    Py.Small.decimalDigitValue c = if isDigit c then some (c.toNat - 48) else none := by
+theorem decimalDigit_cases (c : Char) (h : Py.decimalDigit? c = none ∨ isDigit c = true) :
+    Py.decimalDigit? c = if isDigit c then some (c.toNat - 48) else none := by
   by_cases hd : isDigit c = true
-  · rw [if_pos hd]; exact decimalDigitValue_of_isDigit c hd
+  · rw [if_pos hd]; exact decimalDigit_of_isDigit c hd
   · rw [if_neg hd]
     rcases h with h | h
     · exact h
     · exact absurd h hd
 
-/-- the digit scanner of the primitive, forgetting the digit count, is the model's -/
-theorem digitsVal_eq (cs : List Char) (h : AsciiDigitsOnly cs) (acc k : Nat) :
-    (Py.Small.digitsVal acc k cs).map Prod.fst = digitsVal acc cs := by
-  induction cs generalizing acc k with
-  | nil => rfl
-  | cons c cs ih =>
-    have hc := decimalDigitValue_cases c (h c (by simp))
-    have hcs : AsciiDigitsOnly cs := fun x hx => h x (List.mem_cons_of_mem _ hx)
-    unfold Py.Small.digitsVal digitsVal
-    rw [hc]
-    by_cases hd : isDigit c = true
-    · simp only [hd, if_true]; exact ih hcs _ _
-    · simp only [hd, Bool.false_eq_true, if_false]
-      by_cases hu : c = '_'
-      · simp only [hu, if_true]
-        cases cs with
-        | nil => rfl
-        | cons d ds =>
-          have hdd := decimalDigitValue_cases d (h d (by simp))
-          simp only [hdd]
-          by_cases h2 : isDigit d = true
-          · simp only [h2, if_true, Option.isSome_some]; exact ih hcs _ _
-          · simp only [h2, Bool.false_eq_true, if_false, Option.isSome_none]; rfl
-      · simp only [hu, if_false]; rfl
+theorem intDigits_cons_nil (c : Char) :
+    Py.intDigits [c] = (Py.decimalDigit? c).map (fun d => [d]) := by
+  rw [Py.intDigits]; cases Py.decimalDigit? c <;> rfl
 
-/-- the digit count never exceeds what was scanned -/
-theorem digitsVal_count (cs : List Char) (acc k n k' : Nat) (h : Py.Small.digitsVal acc k cs = some (n, k')) :
-    k' ≤ k + cs.length := by
-  induction cs generalizing acc k with
-  | nil =>
-    simp only [Py.Small.digitsVal, Option.some.injEq, Prod.mk.injEq] at h
-    simp only [List.length_nil]; omega
-  | cons c cs ih =>
-    unfold Py.Small.digitsVal at h
-    cases hv : Py.Small.decimalDigitValue c with
-    | some d =>
-      rw [hv] at h
-      have := ih _ _ h
-      simp only [List.length_cons]; omega
-    | none =>
-      rw [hv] at h
-      by_cases hu : c = '_'
-      · simp only [hu, if_true] at h
-        cases cs with
-        | nil => cases h
-        | cons d ds =>
-          simp only at h
-          by_cases h2 : (Py.Small.decimalDigitValue d).isSome = true
-          · simp only [h2, if_true] at h
-            have := ih _ _ h
-            simp only [List.length_cons] at this ⊢; omega
-          · simp only [h2] at h; cases h
-      · simp only [hu, if_false] at h; cases h
+theorem intDigits_cons_us (c : Char) (rest : List Char) :
+    Py.intDigits (c :: '_' :: rest) = (Py.decimalDigit? c).bind (fun d => (Py.intDigits rest).map (d :: ·)) := by
+  rw [Py.intDigits]; cases Py.decimalDigit? c <;> rfl
 
+theorem intDigits_cons_cons (c r : Char) (rest : List Char) (hr : r ≠ '_') :
+    Py.intDigits (c :: r :: rest) =
+      (Py.decimalDigit? c).bind (fun d => (Py.intDigits (r :: rest)).map (d :: ·)) := by
+  rw [Py.intDigits]
+  cases Py.decimalDigit? c with
+  | none => rfl
+  | some d =>
+    simp only [Option.bind_some]
+
+/-- value of a digit list continued from `acc` -/
+abbrev valFrom (acc : Nat) (ds : List Nat) : Nat := ds.foldl (fun a d => 10 * a + d) acc
+
+/-- the model's digit scanner on a string that starts with a digit is the primitive's `intDigits` -/
+theorem digitsVal_eq : ∀ (n : Nat) (s : List Char), s.length ≤ n → AsciiDigitsOnly s →
+    ∀ (c : Char) (rest : List Char), s = c :: rest → isDigit c = true →
+    ∀ acc, digitsVal acc s = (Py.intDigits s).map (valFrom acc) := by
+  intro n
+  induction n with
+  | zero => intro s hl _ c rest hs; subst hs; simp at hl
+  | succ n ih =>
+    intro s hl h c rest hs hc acc
+    subst hs
+    have hdc := decimalDigit_of_isDigit c hc
+    have hrest : AsciiDigitsOnly rest := fun x hx => h x (List.mem_cons_of_mem _ hx)
+    simp only [List.length_cons] at hl
+    rw [digitsVal.eq_def]
+    simp only [hc, if_true]
+    cases rest with
+    | nil =>
+      rw [intDigits_cons_nil, hdc]
+      simp [digitsVal, valFrom, Nat.mul_comm]
+    | cons r rest' =>
+      by_cases hr : r = '_'
+      · subst hr
+        rw [intDigits_cons_us, hdc]
+        simp only [Option.bind_some, Option.map_map]
+        rw [digitsVal.eq_def]
+        have hnd : isDigit '_' = false := by decide
+        simp only [hnd, Bool.false_eq_true, if_false, if_true]
+        cases rest' with
+        | nil => simp [Py.intDigits]
+        | cons d' r'' =>
+          have hd' := decimalDigit_cases d' (h d' (by simp))
+          by_cases h2 : isDigit d' = true
+          · simp only [h2, if_true]
+            have hr2 : AsciiDigitsOnly (d' :: r'') :=
+              fun x hx => hrest x (List.mem_cons_of_mem _ hx)
+            rw [ih (d' :: r'') (by simp only [List.length_cons] at hl ⊢; omega) hr2 d' r'' rfl h2]
+            cases Py.intDigits (d' :: r'') with
+            | none => rfl
+            | some ds => simp [valFrom, Nat.mul_comm]
+          · simp only [h2, Bool.false_eq_true, if_false]
+            have : Py.decimalDigit? d' = none := by rw [hd']; simp [h2]
+            cases r'' with
+            | nil => rw [intDigits_cons_nil, this]; rfl
+            | cons x xs =>
+              by_cases hx : x = '_'
+              · subst hx; rw [intDigits_cons_us, this]; rfl
+              · rw [intDigits_cons_cons _ _ _ hx, this]; rfl
+      · rw [intDigits_cons_cons _ _ _ hr, hdc]
+        simp only [Option.bind_some, Option.map_map]
+        have hdr := decimalDigit_cases r (h r (by simp))
+        by_cases h2 : isDigit r = true
+        · rw [ih (r :: rest') (by simp only [List.length_cons] at hl ⊢; omega) hrest r rest' rfl h2]
+          cases Py.intDigits (r :: rest') with
+          | none => rfl
+          | some ds => simp [valFrom, Nat.mul_comm]
+        · rw [digitsVal.eq_def]
+          simp only [h2, Bool.false_eq_true, if_false, hr]
+          have : Py.decimalDigit? r = none := by rw [hdr]; simp [h2]
+          cases rest' with
+          | nil => rw [intDigits_cons_nil, this]; rfl
+          | cons x xs =>
+            by_cases hx : x = '_'
+            · subst hx; rw [intDigits_cons_us, this]; rfl
+            · rw [intDigits_cons_cons _ _ _ hx, this]; rfl
+
+/-- the digit count never exceeds the length of the string -/
+theorem intDigits_count : ∀ (n : Nat) (s : List Char), s.length ≤ n → ∀ ds, Py.intDigits s = some ds →
+    ds.length ≤ s.length := by
+  intro n
+  induction n with
+  | zero =>
+    intro s hl ds h
+    cases s with
+    | nil => simp [Py.intDigits] at h
+    | cons _ _ => simp at hl
+  | succ n ih =>
+    intro s hl ds h
+    cases s with
+    | nil => simp [Py.intDigits] at h
+    | cons c rest =>
+      simp only [List.length_cons] at hl
+      cases rest with
+      | nil =>
+        rw [intDigits_cons_nil] at h
+        cases hd : Py.decimalDigit? c with
+        | none => rw [hd] at h; cases h
+        | some d => rw [hd] at h; cases h; simp
+      | cons r rest' =>
+        by_cases hr : r = '_'
+        · subst hr
+          rw [intDigits_cons_us] at h
+          cases hd : Py.decimalDigit? c with
+          | none => rw [hd] at h; cases h
+          | some d =>
+            rw [hd] at h
+            simp only [Option.bind_some] at h
+            cases hi : Py.intDigits rest' with
+            | none => rw [hi] at h; cases h
+            | some ds' =>
+              rw [hi] at h; cases h
+              have := ih rest' (by simp only [List.length_cons] at hl; omega) ds' hi
+              simp only [List.length_cons]; omega
+        · rw [intDigits_cons_cons _ _ _ hr] at h
+          cases hd : Py.decimalDigit? c with
+          | none => rw [hd] at h; cases h
+          | some d =>
+            rw [hd] at h
+            simp only [Option.bind_some] at h
+            cases hi : Py.intDigits (r :: rest') with
+            | none => rw [hi] at h; cases h
+            | some ds' =>
+              rw [hi] at h; cases h
+              have := ih (r :: rest') (by simp only [List.length_cons] at hl ⊢; omega) ds' hi
+              simp only [List.length_cons] at this ⊢; omega
+
+/-- the model's unsigned literal is the primitive's digit list, valued from 0 -/
 theorem natLit_eq (s : List Char) (h : AsciiDigitsOnly s) :
-    (Py.Small.natLit s).map Prod.fst = natLit s := by
+    natLit s = (Py.intDigits s).map (valFrom 0) := by
   cases s with
   | nil => rfl
   | cons c cs =>
-    have hc := decimalDigitValue_cases c (h c (by simp))
-    unfold Py.Small.natLit natLit
-    simp only [hc]
+    unfold natLit
     by_cases hd : isDigit c = true
-    · simp only [hd, if_true, Option.isSome_some]; exact digitsVal_eq _ h _ _
-    · simp only [hd, Bool.false_eq_true, if_false, Option.isSome_none]; rfl
+    · simp only [hd, if_true]
+      exact digitsVal_eq _ (c :: cs) (Nat.le_refl _) h c cs rfl hd 0
+    · simp only [hd, Bool.false_eq_true, if_false]
+      have : Py.decimalDigit? c = none := by
+        rw [decimalDigit_cases c (h c (by simp))]; simp [hd]
+      cases cs with
+      | nil => rw [intDigits_cons_nil, this]; rfl
+      | cons x xs =>
+        by_cases hx : x = '_'
+        · subst hx; rw [intDigits_cons_us, this]; rfl
+        · rw [intDigits_cons_cons _ _ _ hx, this]; rfl
 
-theorem natLit_count (s : List Char) (n k : Nat) (h : Py.Small.natLit s = some (n, k)) : k ≤ s.length := by
-  cases s with
-  | nil => cases h
-  | cons c cs =>
-    unfold Py.Small.natLit at h
-    simp only at h
-    by_cases hd : (Py.Small.decimalDigitValue c).isSome = true
-    · simp only [hd, if_true] at h
-      have := digitsVal_count _ _ _ _ _ h
-      omega
-    · simp only [hd] at h; cases h
+/-- the body of `int()` after blanks and sign -/
+theorem intOfBody_eq (neg : Bool) (body : List Char) (hb : AsciiDigitsOnly body) (hbl : body.length ≤ 4300) :
+    Py.intOfBody neg body =
+      match (natLit body).map (fun n => if neg then -(Int.ofNat n) else Int.ofNat n) with
+      | some k => .ok k
+      | none => .error .valueError := by
+  unfold Py.intOfBody
+  rw [natLit_eq body hb]
+  cases hn : Py.intDigits body with
+  | none => rfl
+  | some ds =>
+    have := intDigits_count _ body (Nat.le_refl _) ds hn
+    have hk : ¬ ds.length > Py.intMaxStrDigits := by unfold Py.intMaxStrDigits; omega
+    simp only [hk, if_false, Option.map_some]
+    cases neg <;> rfl
 
 theorem length_stripInt_le (s : List Char) : (stripInt s).length ≤ s.length := by
   unfold stripInt
@@ -172,59 +264,46 @@ theorem parseInt_cons (s : List Char) (c : Char) (r : List Char) (hg : stripInt 
     have hp : c ≠ '+' := fun e => h2 r (by rw [e])
     simp [hm, hp]
 
-/-- CPython's `int(s)` is the model's `parseInt s` (failure = `ValueError`) when the decimal digits of `s` are
-    ASCII and `s` has at most 4300 characters -/
+theorem intOfStr_nil (s : List Char) (hg : stripInt s = []) : Py.intOfStr s = Py.intOfBody false [] := by
+  have hst : ((s.dropWhile Py.intIsSpace).reverse.dropWhile Py.intIsSpace).reverse = stripInt s := rfl
+  unfold Py.intOfStr; rw [hst, hg]
+
+theorem intOfStr_cons (s : List Char) (c : Char) (r : List Char) (hg : stripInt s = c :: r) :
+    Py.intOfStr s = if c = '-' then Py.intOfBody true r
+      else if c = '+' then Py.intOfBody false r else Py.intOfBody false (c :: r) := by
+  have hst : ((s.dropWhile Py.intIsSpace).reverse.dropWhile Py.intIsSpace).reverse = stripInt s := rfl
+  unfold Py.intOfStr; rw [hst, hg]
+  split
+  · rename_i heq; cases heq; simp
+  · rename_i heq; cases heq; simp
+  · rename_i x h1 h2
+    have hm : c ≠ '-' := fun e => h1 r (by rw [e])
+    have hp : c ≠ '+' := fun e => h2 r (by rw [e])
+    simp [hm, hp]
+
+/-- CPython's `int(s)` (`Py.intOfStr`, the primitive shared with `dataquery.py`) is the model's `parseInt s`
+    (failure = `ValueError`) when the decimal digits of `s` are ASCII and `s` has at most 4300 characters -/
 theorem intOfStr_eq (s : List Char) (h : AsciiDigitsOnly s) (hl : s.length ≤ 4300) :
-    Py.Small.intOfStr s = match parseInt s with
+    Py.intOfStr s = match parseInt s with
       | some k => .ok k
       | none => .error .valueError := by
-  have hst : ((s.dropWhile Py.Small.isIntSpace).reverse.dropWhile Py.Small.isIntSpace).reverse = stripInt s := rfl
-  unfold Py.Small.intOfStr
-  simp only [hst]
   have hlen := length_stripInt_le s
   have hmem : AsciiDigitsOnly (stripInt s) := fun c hc => h c (mem_stripInt s c hc)
-  have key : ∀ (neg : Bool) (body : List Char), AsciiDigitsOnly body → body.length ≤ 4300 →
-      (match Py.Small.natLit body with
-        | none => (Except.error Py.Exc.valueError : Except Py.Exc Int)
-        | some (n, k) =>
-          if k > Py.Small.intMaxStrDigits then .error .valueError
-          else .ok (if neg then -(Int.ofNat n) else Int.ofNat n)) =
-      match (natLit body).map (fun n => if neg then -(Int.ofNat n) else Int.ofNat n) with
-        | some k => .ok k
-        | none => .error .valueError := by
-    intro neg body hb hbl
-    rw [← natLit_eq body hb]
-    cases hn : Py.Small.natLit body with
-    | none => rfl
-    | some p =>
-      obtain ⟨n, k⟩ := p
-      have := natLit_count body n k hn
-      have hk : ¬ k > Py.Small.intMaxStrDigits := by unfold Py.Small.intMaxStrDigits; omega
-      simp only [hk, if_false, Option.map_some]
   cases hg : stripInt s with
   | nil =>
-    rw [parseInt_nil s hg]
-    exact key false [] (fun _ hc => by cases hc) (by simp)
+    rw [parseInt_nil s hg, intOfStr_nil s hg, intOfBody_eq false [] (fun _ hc => by cases hc) (by simp)]
+    rfl
   | cons c r =>
     rw [hg] at hlen hmem
-    rw [parseInt_cons s c r hg]
+    rw [parseInt_cons s c r hg, intOfStr_cons s c r hg]
     have hr : AsciiDigitsOnly r := fun x hx => hmem x (List.mem_cons_of_mem _ hx)
     have hrl : r.length ≤ 4300 := by simp only [List.length_cons] at hlen; omega
     by_cases hm : c = '-'
-    · subst hm
-      rw [if_pos rfl]
-      exact key true r hr hrl
-    · by_cases hp : c = '+'
-      · subst hp
-        have hne : ¬ (('+' : Char) = '-') := by decide
-        simp only [hne, if_false, if_true]
-        exact key false r hr hrl
-      · have := key false (c :: r) hmem (by omega)
-        have h1 : ((c :: r).head? == some '-') = false := by simp [hm]
-        have h2 : ((c :: r).head? == some '+') = false := by simp [hp]
-        rw [if_neg hm, if_neg hp]
-        simp only [h1, h2, Bool.or_false, Bool.false_eq_true, if_false]
-        exact this
+    · rw [if_pos hm, if_pos hm, intOfBody_eq true r hr hrl]; rfl
+    · rw [if_neg hm, if_neg hm]
+      by_cases hp : c = '+'
+      · rw [if_pos hp, if_pos hp, intOfBody_eq false r hr hrl]; rfl
+      · rw [if_neg hp, if_neg hp, intOfBody_eq false (c :: r) hmem (by omega)]; rfl
 
 /-- the pieces of a split are made of characters of the string and are not longer than it -/
 theorem splitDot_pieces (s : List Char) : ∀ p ∈ splitDot s, p.length ≤ s.length ∧ ∀ c ∈ p, c ∈ s := by
